@@ -40,7 +40,7 @@ type raceBlock struct {
 	biogo bool
 }
 
-var frameRe = regexp.MustCompile(`^\s+([^\s(]+)\(`)
+var frameRe = regexp.MustCompile(`^\s{2}(\S+)\([^)]*\)\s*$`)
 
 func parseRaces(text string) []raceBlock {
 	var out []raceBlock
